@@ -23,20 +23,116 @@ func (a simAddr) Network() string { return "sim" }
 func (a simAddr) String() string  { return string(a) }
 
 type half struct {
-	mu      sync.Mutex
-	cond    *sync.Cond
-	buf     []byte
-	cap     int
-	wclosed bool // writer side closed: reader sees EOF after draining
-	rclosed bool // reader side closed: writer sees EPIPE
-	reset   bool
-	total   int64 // bytes ever written
+	mu       sync.Mutex
+	cond     *sync.Cond
+	buf      []byte // delivered: what the reader can read
+	inflight []byte // written, not yet delivered to the reader
+	cap      int
+	// Each fact about one end exists twice: as the end that caused it knows it (at once), and as
+	// the other end sees it (from the next delivery on).
+	wclosed, wclosedVis bool // writer side closed: reader sees EOF after draining
+	rclosed, rclosedVis bool // reader side closed: writer sees EPIPE
+	reset, resetVis     bool
+	total               int64 // bytes ever written
 }
 
 func newHalf(capacity int) *half {
 	h := &half{cap: capacity}
 	h.cond = sync.NewCond(&h.mu)
+	simnetReg.mu.Lock()
+	simnetReg.halves = append(simnetReg.halves, h)
+	simnetReg.mu.Unlock()
 	return h
+}
+
+// Delivery. Besides the tasks the scheduler releases one at a time, net/http runs goroutines of
+// its own (the transport's read and write loops, a server connection between two requests) that
+// nobody schedules. If a write were readable the moment it is made, how much such a goroutine
+// finds in one Read (and with it how much room the writer has left, whether it blocks, which
+// task is eligible next) would depend on real timing. So, while a scheduler drives the world,
+// what one end does becomes visible to the other end only at quiescent points: when every
+// goroutine of the bubble is durably blocked, the scheduler moves all bytes in flight, and all
+// pending close/reset notices, to their readers, wakes them, and waits for quiescence again
+// before it releases the next task. Within the capacity of a connection this changes nothing a
+// real network could not do (bytes take time to arrive); it makes the unscheduled goroutines'
+// inputs a function of the schedule alone.
+var simnetReg struct {
+	mu        sync.Mutex
+	halves    []*half
+	quiescent bool
+}
+
+// simnetBegin starts a world: connections made from now on deliver at quiescent points (or at
+// once, if quiescent is false).
+func simnetBegin(quiescent bool) {
+	simnetReg.mu.Lock()
+	simnetReg.halves = nil
+	simnetReg.quiescent = quiescent
+	simnetReg.mu.Unlock()
+}
+
+// simnetImmediate ends quiescent delivery (teardown: no scheduler drives the world any more).
+func simnetImmediate() {
+	simnetReg.mu.Lock()
+	simnetReg.quiescent = false
+	simnetReg.mu.Unlock()
+	simnetDeliver()
+}
+
+func simnetQuiescent() bool {
+	simnetReg.mu.Lock()
+	defer simnetReg.mu.Unlock()
+	return simnetReg.quiescent
+}
+
+// simnetDeliver makes everything in flight visible. Called with every goroutine of the bubble
+// blocked, so nothing runs between the first move and the last; the wake-ups come afterwards.
+func simnetDeliver() bool {
+	simnetReg.mu.Lock()
+	hs := simnetReg.halves
+	simnetReg.mu.Unlock()
+	var changed []*half
+	for _, h := range hs {
+		h.mu.Lock()
+		if h.deliverLocked() {
+			changed = append(changed, h)
+		}
+		h.mu.Unlock()
+	}
+	for _, h := range changed {
+		h.mu.Lock()
+		h.cond.Broadcast()
+		h.mu.Unlock()
+	}
+	return len(changed) > 0
+}
+
+func (h *half) deliverLocked() bool {
+	ch := false
+	if len(h.inflight) > 0 {
+		h.buf = append(h.buf, h.inflight...)
+		h.inflight = nil
+		ch = true
+	}
+	if h.wclosed && !h.wclosedVis {
+		h.wclosedVis, ch = true, true
+	}
+	if h.rclosed && !h.rclosedVis {
+		h.rclosedVis, ch = true, true
+	}
+	if h.reset && !h.resetVis {
+		h.resetVis, ch = true, true
+		h.buf = nil
+	}
+	return ch
+}
+
+// changedLocked: something was done to h that the other end has to learn about.
+func (h *half) changedLocked() {
+	if !simnetQuiescent() {
+		h.deliverLocked()
+	}
+	h.cond.Broadcast()
 }
 
 // who closed a connection whose own side is then used again (diagnosis of aborted exchanges)
@@ -126,7 +222,7 @@ func (c *simConn) Read(p []byte) (int, error) {
 			c.closedUse("Read")
 			return 0, net.ErrClosed
 		}
-		if h.reset {
+		if h.resetVis {
 			return 0, &net.OpError{Op: "read", Net: "sim", Err: syscall.ECONNRESET}
 		}
 		if len(h.buf) > 0 {
@@ -138,7 +234,7 @@ func (c *simConn) Read(p []byte) (int, error) {
 			h.cond.Broadcast()
 			return n, nil
 		}
-		if h.wclosed {
+		if h.wclosedVis {
 			return 0, io.EOF
 		}
 		if d := c.deadline(true); !d.IsZero() && !time.Now().Before(d) {
@@ -167,11 +263,11 @@ func (c *simConn) Write(p []byte) (int, error) {
 			c.closedUse("Write")
 			return written, net.ErrClosed
 		}
-		if h.reset {
+		if h.resetVis {
 			simnetNote(fmt.Sprintf("Write on %s->%s: reset after %d of %d bytes; called from [%s]", c.local, c.remote, written, written+len(p), callers()))
 			return written, &net.OpError{Op: "write", Net: "sim", Err: syscall.ECONNRESET}
 		}
-		if h.rclosed {
+		if h.rclosedVis {
 			simnetNote(fmt.Sprintf("Write on %s->%s: peer closed after %d of %d bytes; called from [%s]", c.local, c.remote, written, written+len(p), callers()))
 			return written, &net.OpError{Op: "write", Net: "sim", Err: syscall.EPIPE}
 		}
@@ -185,14 +281,14 @@ func (c *simConn) Write(p []byte) (int, error) {
 		if d := c.deadline(false); !d.IsZero() && !time.Now().Before(d) {
 			return written, os.ErrDeadlineExceeded
 		}
-		space := h.cap - len(h.buf)
+		space := h.cap - len(h.buf) - len(h.inflight)
 		if space > 0 {
 			n := min(space, len(p))
-			h.buf = append(h.buf, p[:n]...)
+			h.inflight = append(h.inflight, p[:n]...)
 			h.total += int64(n)
 			p = p[n:]
 			written += n
-			h.cond.Broadcast()
+			h.changedLocked()
 			continue
 		}
 		h.cond.Wait()
@@ -218,12 +314,13 @@ func (c *simConn) Close() error {
 	c.mu.Unlock()
 	c.wr.mu.Lock()
 	c.wr.wclosed = true
-	c.wr.cond.Broadcast()
+	c.wr.changedLocked()
 	c.wr.mu.Unlock()
 	c.rd.mu.Lock()
 	c.rd.rclosed = true
 	c.rd.buf = nil
-	c.rd.cond.Broadcast()
+	c.rd.inflight = nil
+	c.rd.changedLocked()
 	c.rd.mu.Unlock()
 	return nil
 }
@@ -232,7 +329,7 @@ func (c *simConn) Close() error {
 func (c *simConn) CloseWrite() error {
 	c.wr.mu.Lock()
 	c.wr.wclosed = true
-	c.wr.cond.Broadcast()
+	c.wr.changedLocked()
 	c.wr.mu.Unlock()
 	return nil
 }
@@ -242,8 +339,8 @@ func (c *simConn) Abort() {
 	for _, h := range []*half{c.rd, c.wr} {
 		h.mu.Lock()
 		h.reset = true
-		h.buf = nil
-		h.cond.Broadcast()
+		h.inflight = nil
+		h.changedLocked()
 		h.mu.Unlock()
 	}
 	c.mu.Lock()
